@@ -64,6 +64,19 @@ Spelling independence (round 4; C13_helpers "Round 4" section):
   node constructor   R6: the node may be built in a function of the directory, in the closure of the map stage over the
                      directories, or inline in the body of the loop over them (the directory is then the loop's element); a `?` in
                      that body is a failing step (its error must fail the caller), not a selection of directories
+Spelling independence (round 5):
+  id table           R1/R4: "the index of the node with id X" may be looked up in a table instead of the graph —
+                     `NodeIndex::new(T.iter().position(|e| *e == X))` with T[k] = id of node k by construction (find_by_table:
+                     one push of n.id() and one add_node(n), each for every element n of `nodes` in order, on a graph created
+                     empty that never shrinks); `position` is a by-id lookup whose None must become the error like find's
+  fused builder      R6: `dirs.filter(kind).map(build)` may be `dirs.filter_map(build')` with build' returning
+                     Option<Result<Node>>: the decisions under which build' returns Some(..) (C13_helpers.some_when) are the
+                     per-directory conditions of nodes-total, its Some payload is the node's Result, and that Result's Err
+                     fails the caller where the elements are collected (C13_helpers.carried_in_some); the node may be
+                     assembled in the closure of `helper(dir).map(|(id, deps)| Node { .. })` (payload_closure: the fields in
+                     the enclosing function's terms), each component of a tuple-returning helper being followed like a
+                     helper of its own (Payloads.returned(proj))
+  counters           R7: `(1..).zip(order)` is `order.enumerate()` (C15_helpers.counter_nf, shared with C15)
 Not decided: topological correctness on all DAGs (follows from R1–R3 given petgraph's documented post-order
 semantics); behaviour on cyclic input.
 """
@@ -72,7 +85,7 @@ import re
 from .lib import iters
 from .lib.discard import verdict, result_fates
 from .lib.effects import Effects
-from .lib.value import vstr, walk, canon
+from .lib.value import vstr, walk, canon, subst
 from . import C13_helpers as H
 from .C13_helpers import peel, core, is_call, site_of
 
@@ -100,8 +113,8 @@ def classify(name):
             return 'TRAV_NEXT'
         if last == 'move_to':
             return 'TRAV_MOVE'
-    if name == FIND:
-        return 'FIND'
+    if name == FIND or name == H.IT + 'position':
+        return 'FIND'      # (position = find with the place of the element as result)
     if name.startswith('std::option::Option::') and last in ('ok_or', 'ok_or_else'):
         return 'OK_OR'
     if name == DN + 'dependencies':
@@ -231,7 +244,12 @@ def find_by_id(sl, v):
         x = ('tuple', (i, ('call', 'std::ops::Index::index', (g, i), None)))
     else:
         return None
-    r = H.apply1(sl, f[2][1], x)
+    return id_test(sl, f[2][1], x, g, i)
+
+
+def id_test(sl, pred, x, g, i):
+    """the predicate applied to x is `G[i].id() == X` (either operand order) with X independent of i: (G, X), else None"""
+    r = H.apply1(sl, pred, x)
     if r is None:
         return None
     r = peel(r)
@@ -244,6 +262,74 @@ def find_by_id(sl, v):
         if is_call(ix, *INDEX_OF) and len(ix[2]) == 2 and peel(ix[2][1]) == i and canon(peel(ix[2][0])) == canon(g) and not any(y == i for y in walk(b)):
             return g, b
     return None
+
+
+POSITION = H.IT + 'position'
+GRAPH_SHRINKING = ('remove_node', 'retain_nodes', 'clear', 'clear_nodes', 'swap_remove', 'filter_map', 'reverse')
+
+
+def find_by_table(prog, sl, S, fn, v):
+    """round 5 — v denotes the index of the first node of G whose id is X, looked up in an id table instead of the graph:
+        NodeIndex::new(position(T.iter(), |e| *e == X))      (also `.position(..).map(NodeIndex::new)`)
+    where T is a vector created in fn whose k-th element is the id of the node with index k, by construction:
+      - T is only ever read, and appended to by one `T.push(n.id())`; G gets its nodes by one `G.add_node(n)`; G is created
+        empty in fn and nothing removes a node from it (petgraph hands out indices 0, 1, 2, .. in insertion order);
+      - both calls run once for every element n of `nodes`, in order (total_iterations on either: no filter, truncation,
+        per-element decision; in_order: no rev / skip), so position k of T and node index k of G belong to the same n.
+    `position` returns the first match in index order exactly like find over node_indices().  -> (G, X), else None"""
+    v = peel(v)
+    if not (v[0] == 'call' and re.search(r'NodeIndex(::<[^>]*>)?::new$', v[1] or '') and len(v[2]) == 1):
+        return None
+    f = core(v[2][0])
+    if not (f[0] == 'call' and f[1] == POSITION and len(f[2]) == 2):
+        return None
+    recv = core(f[2][0])
+    if recv[0] == 'call' and len(recv[2]) == 1 and 'petgraph::' in recv[1] and is_call(recv, '::node_indices', '::node_weights'):
+        # the place of a node in the graph's own enumeration is its index (a petgraph Graph keeps its indices dense: 0..n in
+        # node_indices() / node_weights() order): NodeIndex::new(position(..)) is find(..) over node_indices()
+        gq, i = peel(recv[2][0]), H.sym('i')
+        x = i if is_call(recv, '::node_indices') else ('call', 'std::ops::Index::index', (gq, i), None)
+        return id_test(sl, f[2][1], x, gq, i)
+    base = peel(f[2][0])
+    for _ in range(6):
+        if base[0] == 'call' and len(base[2]) == 1 and (base[1] in H.TRANSPARENT_STAGES - {H.IT + 'inspect'} or (iters._is_source(base[1]) and base[1].endswith(iters.SAME_ELEMS))):
+            base = peel(base[2][0])
+    vsite = site_of(base)
+    if not (base[0] == 'call' and base[1] in H.VEC_NEW and vsite is not None and vsite[0] == fn.path):
+        return None
+    e = H.sym('e')
+    r = H.apply1(sl, f[2][1], e)
+    if r is None:
+        return None
+    r = peel(r)
+    if not (is_call(r, '::eq') and len(r[2]) == 2):
+        return None
+    a, b = peel(r[2][0]), peel(r[2][1])
+    if b == e:
+        a, b = b, a
+    if a != e or any(y == e for y in walk(b)):
+        return None
+    app, _, other = H.vec_uses(prog, sl, fn, vsite)
+    pushes = [x for x in S.of('PUSH') if len(x.args) == 2 and site_of(peel(x.args[0])) == vsite]
+    adds = S.of('ADD_NODE')
+    if other or len(app) != 1 or app[0][2] != 'push' or len(pushes) != 1 or S.site(pushes[0].call) != S.site(app[0][0]):
+        return None
+    if len(S.sites('ADD_NODE')) != 1 or len(adds) != 1 or not S.all_reached('ADD_NODE') or len(adds[0].args) != 2 or S.named(GRAPH_SHRINKING):
+        return None
+    g = peel(adds[0].args[0])
+    if not (g[0] == 'call' and 'petgraph::' in g[1] and g[1].split('::')[-1] in ('new', 'with_capacity', 'default') and site_of(g) is not None and site_of(g)[0] == fn.path):
+        return None
+    idv = peel(pushes[0].args[1])
+    if not (idv[0] == 'call' and idv[1] == DN + 'id' and idv[2]):
+        return None
+    elems = []
+    for x, node in ((pushes[0], idv[2][0]), (adds[0], adds[0].args[1])):
+        vd, _, its = H.total_iterations(S.E, x)
+        if vd != 'ok' or len(its) != 1 or its[0].base is None or peel(its[0].base)[:3] != ('param', fn.path, 0) or its[0].elem is None \
+                or not H.in_order(its[0].recv) or canon(peel(node)) != canon(peel(its[0].elem)):
+            return None
+        elems.append(canon(peel(its[0].elem)))
+    return g, b
 
 
 def error_named(sl, v, variant):
@@ -386,7 +472,7 @@ def run(ctx, rep):
                 g, s = peel(g), peel(s)
                 ok_src = one_list and all(canon(og) == canon(g) and os == s for og, os in owners)
                 ok_tgt = False
-                fb = find_by_id(sl, t)
+                fb = find_by_id(sl, t) or find_by_table(prog, sl, SC, cg, t)
                 if fb is not None and canon(fb[0]) == canon(g):
                     coll = H.element_of(sl, fb[1])
                     deps = [x for x in walk(coll) if x[0] == 'call' and x[1] == DN + 'dependencies'] if coll is not None else []
@@ -893,6 +979,49 @@ def read_from(v, dirv, leaf):
     return c[0] == 'call' and c[1] == READ and len(c[2]) == 1 and is_path_in(c[2][0], dirv, leaf) and v[0] == 'unwrap'
 
 
+def payload_closure(prog, sl, g):
+    """closure g is the body of `r.map(g)` / `r.and_then(g)` (a combinator whose closure runs on the success payload of r and
+    whose failure is r's own) in a function T of one parameter (the buildpack directory), and T returns that very
+    combinator's result, as is or as the payload of the `Some(..)` results of an Option (T then also decides *whether* the
+    directory becomes a node: nodes-total): (T, {closure parameter / captures -> values in T's terms}, payload levels of
+    T's result above the node's Result), else None"""
+    if g.kind != 'Closure' or g.argc != 2 or g.parent not in prog.fns or not (g.ret == NODE or g.ret.startswith('std::result::Result<' + NODE + ',')):
+        return None
+    T = prog.fns[g.parent]
+    if T.kind == 'Closure' or T.argc != 1:
+        return None
+    hits = []
+    for c in T.calls:
+        if not c.indirect and (set(c.names()) & set(H.ERR_KEEPING[:2])) and len(c.args) == 2 and (c.dty or '').startswith('std::result::Result<'):
+            clv = peel(sl.operand(T, c.args[1]))
+            if clv[0] == 'closure' and clv[1] == g.path:
+                hits.append((c, clv))
+    if len(hits) != 1:
+        return None
+    c, clv = hits[0]
+    ret = sl.local(T, 0)
+    outs = [ret]
+    levels_ = 0
+    if T.ret.startswith('std::option::Option<'):
+        sw = H.some_when(prog, sl, T, {}, ())
+        if sw is None:
+            return None
+        outs = [sl.operand(T, d[3]['ops'][0]) for _, _, d in sw]
+        levels_ = 1
+    elif not T.ret.startswith('std::result::Result<'):
+        return None
+    for o in outs:
+        o = peel(o)
+        while o[0] == 'call' and o[1] in H.ERR_KEEPING[2:] and o[2]:
+            o = peel(o[2][0])
+        if site_of(o) != (T.path, c.bb):
+            return None
+    m = {(g.path, 1): ('unwrap', sl.operand(T, c.args[0]))}
+    for i, uv in enumerate(clv[2]):
+        m[('upvar', g.path, i)] = uv
+    return T, m, levels_
+
+
 def rule6(ctx, rep):
     prog, sl = ctx.prog, ctx.slicer
     rep.rule('R6', 'the graph input is complete: all libcnb dependencies of all LibCnbRs / Composite buildpack directories')
@@ -929,7 +1058,7 @@ def rule6(ctx, rep):
             for s in blk['s']:
                 if s[0] == '=' and s[2]['r'] == 'agg' and s[2].get('adt') == NODE:
                     ctors.append((g, bi, s[2]))
-    builders, inline_nodes = [], []
+    builders, inline_nodes, builder_levels, builder_ctor = [], [], {}, {}
     if not ctors:
         rep.unproven('R6', 'node-dependencies', '-', 'no construction of BuildpackDependencyGraphNode found')
     for n, (g, bi, rv) in enumerate(ctors):
@@ -940,18 +1069,31 @@ def rule6(ctx, rep):
         # one argument besides the captured environment), or the body of a loop (helpers inlined: the loop's element)
         inline = [L for L in H.nat_loops(g) if bi in L.body and bi != L.header and L.next_call.dest and len(L.next_call.dest) == 1]
         dir_local = 2 if g.kind == 'Closure' else 1
-        if 'dependencies' not in ops or 'buildpack_id' not in ops or (not inline and g.argc != dir_local):
+        wrapped = None if inline else payload_closure(prog, sl, g)
+        if 'dependencies' not in ops or 'buildpack_id' not in ops or (not inline and wrapped is None and g.argc != dir_local):
             rep.unproven('R6', 'node-dependencies' + sfx, w(g), 'the node is built in %s, not in a function of the buildpack directory' % g.path)
             continue
+        field_alts = lambda name: P.of_operand(g, ops[name])
         if inline:
             L = min(inline, key=lambda L: len(L.body))
             dirv = peel(sl.mk_unwrap(sl.local(g, L.next_call.dest[0]), 1))     # (comparisons are on peeled values)
             inline_nodes.append((g, bi, dirv, L))
+        elif wrapped is not None:
+            # round 5: `helper(dir).map(|parts| Node { .. })` inside a function T of the directory — the closure's parameter is
+            # the success payload of its receiver, its captures are T's values: the fields in T's terms
+            T, mclos, levels_ = wrapped
+            builders.append(T)
+            builder_levels[T.path] = levels_
+            builder_ctor[T.path] = g
+            dirv = ('param', T.path, 0, T.local_name(1))
+            field_alts = lambda name, T=T, mclos=mclos: P.of_value(T, subst(sl.operand(g, ops[name]), mclos, sl), {}, ())
         else:
             builders.append(g)
+            # (a builder that also decides whether the directory becomes a node at all: Option<Result<Node>> / Result<Option<Node>>)
+            builder_levels[g.path] = 1 if g.kind != 'Closure' and g.ret.startswith(('std::option::Option<std::result::Result<', 'std::result::Result<std::option::Option<')) else 0
             dirv = ('param', g.path, dir_local - 1, g.local_name(dir_local))
         # buildpack_id
-        alts = P.of_operand(g, ops['buildpack_id'])
+        alts = field_alts('buildpack_id')
         probs = []
         for a in alts:
             v = core(H.reduce(sl, a.value, keep))
@@ -966,7 +1108,7 @@ def rule6(ctx, rep):
         # path: the directory the node was built for (it is what gets packaged, and what the current directory is compared with)
         if 'path' in ops:
             probs = []
-            for a in P.of_operand(g, ops['path']):
+            for a in field_alts('path'):
                 v = peel(H.reduce(sl, a.value, keep))
                 for _ in range(8):
                     if v[0] == 'call' and len(v[2]) == 1 and v[1].endswith(PATH_SAME):
@@ -977,7 +1119,7 @@ def rule6(ctx, rep):
                 probs.append(('violated' if off else 'unproven', '`path` is not the buildpack directory the node was built for: ' + vstr(v)[:160]))
             conclude(rep, 'node-path' + sfx, w(g), probs, 'path = the buildpack directory')
         # dependencies
-        alts = P.of_operand(g, ops['dependencies'])
+        alts = field_alts('dependencies')
         nprobs, dprobs, built = [], [], 0
         sites, pushes = set(P.sites), []
         for a in alts:
@@ -1001,8 +1143,8 @@ def rule6(ctx, rep):
                 nprobs.extend(b.problems or [('unproven', 'unrecognised value for `dependencies`')])
         if not built and not nprobs:
             nprobs.append(('violated', 'the node\'s dependency list is never computed from package.toml'))
-        untouched(prog, sl, [g], BPID, sites, pushes, 'dependency list', nprobs)
-        untouched(prog, sl, [h for h in P.frames.values() if h is not g], BPID, sites, pushes, 'dependency list', dprobs if built else nprobs)
+        untouched(prog, sl, [g] + ([wrapped[0]] if wrapped is not None else []), BPID, sites, pushes, 'dependency list', nprobs)
+        untouched(prog, sl, [h for h in P.frames.values() if h is not g and not (wrapped is not None and h is wrapped[0])], BPID, sites, pushes, 'dependency list', dprobs if built else nprobs)
         conclude(rep, 'node-dependencies' + sfx, w(g), nprobs, 'dependencies = libcnb dependency ids of <dir>/package.toml; empty only when that file does not exist')
         if built:
             conclude(rep, 'dependencies-total' + sfx, w(g), dprobs, 'every dependency of the package descriptor is handed to buildpack_id_from_libcnb_dependency; only Ok(None) is dropped; errors propagate')
@@ -1044,7 +1186,7 @@ def rule6(ctx, rep):
             fr = None
             for nb in builders:
                 fr = fr or result_of(b.elem, nb.path)
-            want = 0 if b.form == 'pipeline' else 1
+            want = (0 if b.form == 'pipeline' else 1) + (builder_levels.get(fr[0][1], 0) if fr is not None else 0)
             # helpers inlined: the node is constructed in the body of the very loop that pushes it — it is the node of that
             # loop's element (what it is made of is decided by node-id / node-path / node-dependencies on that element)
             inl = [x for x in inline_nodes if x[0] is b.frame]
@@ -1057,7 +1199,33 @@ def rule6(ctx, rep):
                 probs.append(('unproven', 'the value added per directory is not the node built for that directory: ' + vstr(b.elem)[:160]))
                 fr = None
             kinds = None
+            conds = []
             for k in b.conds:
+                # round 5: the builder itself says "no node for this directory" by returning None (filter + map fused into
+                # filter_map): the decisions under which it returns Some(..) are the per-directory conditions
+                kb, T = None, None
+                if fr is not None and builder_levels.get(fr[0][1]) and fr[0][1] in prog.fns and prog.fns[fr[0][1]].kind != 'Closure':
+                    T = prog.fns[fr[0][1]]
+                    own = 1 if T.ret.startswith('std::result::Result<') else 0      # Result<Option<Node>>: the Option is the payload
+                    if k.kind == 'some':
+                        # filter_map(T) / filter_map(|d| T(d).transpose()): the element is kept when T's Option is Some
+                        kb = result_of(peel(k.value), T.path)
+                        kb = kb if (kb is not None and kb[1] == 0 and (own == 0 or any(is_call(y, '::transpose') for y in walk(peel(k.value))))) else None
+                    elif k.kind == 'variant' and k.enum == 'std::option::Option' and k.outcome == frozenset(['Some']):
+                        # `if let Some(node) = T(d)?` / `let Some(r) = T(d) else { continue }`
+                        kb = result_of(k.subject, T.path)
+                        kb = kb if (kb is not None and kb[1] == own) else None
+                if kb is not None and of_elem(kb, b):
+                    sw = H.some_when(prog, sl, T, {(T.path, 0): b.x}, keep - {T.path})
+                    ks = H.merge_alternatives([(x[0], x[1]) for x in sw], T.path, None) if sw else None
+                    if ks is None:
+                        probs.append(('unproven', 'when %s returns Some(..) is not a set of plain decisions' % T.path))
+                    else:
+                        conds.extend(H.Keep(x.kind, x.outcome, H.reduce(sl, x.subject, keep) if x.subject is not None else None, x.enum,
+                                            H.reduce(sl, x.value, keep) if x.value is not None else None, x.origin, x.total) for x in ks)
+                else:
+                    conds.append(k)
+            for k in conds:
                 kr = result_of(k.subject, KIND) if k.kind == 'variant' else None
                 nr = result_of(k.subject, fr[0][1]) if (k.kind == 'variant' and fr is not None) else None
                 if of_elem(kr, b) and k.enum == 'std::option::Option' and k.outcome == frozenset(['Some']) and kr[1] == 0:
